@@ -183,6 +183,11 @@ class SiteModel:
         if c == "unknown":
             while True:
                 v = rng.choice([rng.randint(0, 3000), rng.randint(0, 2 ** 63 - 1), 2 ** 63 - 1, 2 ** 31, 2 ** 32 + 1])
+                if rng.random() < 0.4:
+                    # a table number with a foreign high bit (x32 bit, sign bits, bit 32, ...) or shifted: another number
+                    k = rng.choice(self.known)
+                    v = rng.choice([k | 0x40000000, k | 0x80000000, k | (1 << 32), k | (1 << 62), k | (1 << 31) | (1 << 30),
+                                    k + 0x40000000, k << 8, k | 0x10000, k | 0x1000, k + 512, (k << 32) | k])
                 if v not in self.table:
                     break
             self.count("number:unknown")
@@ -203,8 +208,17 @@ class SiteModel:
         rng = self.rng
         if short is None:
             sep = rng.choice(["\t", "\t", " ", "\t\t", "  "])
-            return "  %s%s0x%x%s%s%s%s%s" % (loc, sep, addr, sep, "%02x" % rng.randint(0, 255) * rng.randint(1, 7), sep, text,
-                                             rng.choice(["", "", "\t", " "]))
+            lead, trail = "  ", rng.choice(["", "", "\t", " "])
+            if rng.random() < 0.06:
+                # heavily padded line (raw length far above the trimmed length)
+                pad = rng.choice([" ", "\t", " \t"]) * rng.choice([20, 49, 60, 79, 80, 81, 100, 200])
+                how = rng.choice(["trail", "lead", "both"])
+                if how != "lead":
+                    trail = pad
+                if how != "trail":
+                    lead = pad
+                self.count("padded-line")
+            return "%s%s%s0x%x%s%s%s%s%s" % (lead, loc, sep, addr, sep, "%02x" % rng.randint(0, 255) * rng.randint(1, 7), sep, text, trail)
         pre = ["%s" % loc, "0x%x" % addr, "0f05"][:short]
         return " ".join(pre + [text])
 
